@@ -238,7 +238,17 @@ func init() {
 				}
 				// vf.Interleave: just before this thread acquires a lock, the registered
 				// operation of ANOTHER thread may run to completion (one preemption)
+				site := ""
 				if acquire && p.interleave != nil && !p.inInterleave {
+					// one offer per static lock site (the same critical section entered again
+					// in a loop is not a new kind of window)
+					site = p.where()
+					if p.interleaveSites == nil {
+						p.interleaveSites = map[string]bool{}
+					}
+				}
+				if site != "" && !p.interleaveSites[site] {
+					p.interleaveSites[site] = true
 					k := p.choose(2)
 					p.inputs = append(p.inputs, &InputRec{Kind: "choose", Val: uint64(k), Env: p.inModel()})
 					if k == 1 {
@@ -289,6 +299,7 @@ func init() {
 			return nil
 		}
 		p.interleave = fv
+		p.interleaveSites = nil
 		return nil
 	})
 	for _, t := range []string{"Mutex", "RWMutex"} {
